@@ -3,32 +3,13 @@ package c20
 import (
 	"fmt"
 	"testing"
-
-	"github.com/blevesearch/bleve/v2"
 )
 
-func TestDbg(t *testing.T) {
-	for _, nested := range []bool{false, true} {
-		idx := newMem(nested)
-		idx.Index("p", Doc{Name: "x"}.Data())
-		idx.Index("q", Doc{Name: "y", Items: []Item{{K: "x", V: "x"}}}.Data())
-		for _, q := range []*Q{
-			{Kind: "bool", Must: []*Q{T("name", "x")}, Should: []*Q{T("name", "y"), T("name", "y")}, SMin: 1},
-			{Kind: "bool", Must: []*Q{T("name", "x")}, Should: []*Q{T("name", "y"), T("items.k", "y")}, SMin: 1},
-			{Kind: "bool", Must: []*Q{T("name", "x")}, Should: []*Q{T("name", "y")}, SMin: 1},
-			{Kind: "bool", MustNot: []*Q{T("name", "x")}},
-			{Kind: "all"},
-		} {
-			for _, sc := range []string{"", "none"} {
-				req := bleve.NewSearchRequest(q.ToBleve())
-				req.Score = sc
-				res, err := idx.Search(req)
-				var ids []string
-				for _, h := range res.Hits {
-					ids = append(ids, h.ID)
-				}
-				fmt.Println(nested, q, "score", sc, "->", ids, res.Total, err, string(queryJSON(q)))
-			}
-		}
+func TestSizes(t *testing.T) {
+	for _, quick := range []bool{true, false} {
+		f := families(quick)
+		base := baseQueries(quick)
+		wr := wrapped(quick)
+		fmt.Println("quick", quick, "docs", len(f[0].docs), len(f[1].docs), len(f[2].docs), "base", len(base), "wrapped", len(wr))
 	}
 }
